@@ -77,7 +77,12 @@ func rsBaseDir() (string, error) {
 // rsSweep removes the directories of earlier processes that were killed before their
 // clean-up (the runner stops the other shards after a violation).
 func rsSweep() {
-	parent := rsParentDir()
+	for _, parent := range []string{rsParentDir(), os.TempDir()} {
+		rsSweepIn(parent)
+	}
+}
+
+func rsSweepIn(parent string) {
 	ents, err := os.ReadDir(parent)
 	if err != nil {
 		return
